@@ -413,6 +413,45 @@ def check_close_raises(eng, run):
     run.floor("C17.disc socket-level shutdown calls in close paths", n, 2)
 
 
+def check_error_path_constructs(eng, run):
+    """the containment machinery itself must not fail: (a) in except arms of the server / listener modules an attribute of the caught
+    exception is read only where every caught class has it or after an isinstance() narrowing (evaluation order included);
+    (b) the functions on the exit path of the per-client catch-all (the UDP context's __aexit__ and what it calls) contain no
+    destructuring of a run-time value (an address tuple has 2 or 4 elements depending on the family); (c) keyword arguments that
+    configure the per-connection timeouts are not crossed over"""
+    from sa.analyses.arms import check_crossed_keywords, check_handler_attrs
+    check_handler_attrs(eng, run, "C17.setup", ("servers", "lowlevel.api_async.servers", "lowlevel.api_async.backend._asyncio.stream.listener", "lowlevel.api_async.transports.tls"), 2)
+    check_crossed_keywords(eng, run, "C17.setup", ("servers", "lowlevel.api_async.servers", "lowlevel.api_async.transports"), 5)
+    ctx = eng.db.module("servers.async_udp").classes.get("_ClientContext")
+    ax = ctx.methods.get("__aexit__") if ctx else None
+    if ax is None:
+        raise AnalysisError("anchor vanished: servers.async_udp._ClientContext.__aexit__")
+    todo, seen = [ax], set()
+    n = 0
+    while todo:
+        fn = todo.pop()
+        if fn.qualname in seen:
+            continue
+        seen.add(fn.qualname)
+        n += 1
+        bad = []
+        for st in own_nodes(fn.node):
+            if isinstance(st, ast.Assign) and any(isinstance(t, (ast.Tuple, ast.List)) for t in st.targets) and not isinstance(st.value, (ast.Tuple, ast.List)):
+                fixed_arity = isinstance(st.value, ast.Call) and isinstance(st.value.func, ast.Attribute) and st.value.func.attr in ("split", "partition", "rpartition") and \
+                    (st.value.func.attr != "split" or any(w in (dotted(st.value.func.value) or "") for w in ("exc", "group", "error")))  # BaseExceptionGroup.split() -> (match, rest)
+                if not fixed_arity:
+                    bad.append(st)
+            if isinstance(st, ast.Call) and isinstance(st.func, ast.Attribute) and dotted(st.func.value) == fn.self_name:
+                m = ctx.find_method(st.func.attr)
+                if m is not None and not isinstance(m.node, ast.Lambda):
+                    todo.append(m)
+        for st in bad[:1]:
+            run.finding("C17.hook", fn, st, f"`{ast.unparse(st)[:60]}` destructures a run-time value on the exit path of the per-client catch-all: when the shape differs (an IPv6 address has 4 elements) "
+                        "the ValueError is raised *by* the catch-all, leaves the client task and stops the server")
+        run.ob("C17.hook", f"{fn.short}:no-failable-destructuring-in-the-catch-all", not bad)
+    run.floor("C17.hook functions on the catch-all exit path", n, 2)
+
+
 def run(eng, run):
     run.not_decided += NOT_DECIDED
     run.assumptions += ["task-group semantics: an exception that does not leave a task does not cancel its siblings",
@@ -426,6 +465,7 @@ def run(eng, run):
     check_receiver_escape(eng, run)
     check_progress(eng, run)
     check_close_raises(eng, run)
+    check_error_path_constructs(eng, run)
 
 
 # ---------------------------------------------------------------------------------------------- self-test corpus
@@ -512,4 +552,31 @@ MUTANTS += [
             why="a handler that fails before its first yield is re-spawned for ever on the same datagram (seed C17-5)"),
     Variant("adapter-close-catches-connection-errors-only", _ADA, lambda fn: set_handler_type(fn, "OSError", "ConnectionError"), "C17.disc",
             why="ENOTCONN from shutdown() on a reset connection escapes the forceful close (seed C17-6)"),
+]
+
+
+_UDPLOG = "servers.async_udp:_ClientContext.__log_exception"
+_TLSL = "servers.async_tcp:AsyncTCPNetworkServer.__create_ssl_over_tcp_listeners"
+
+
+def _swap_and_operands(fn):
+    b = next(x for x in ast.walk(fn) if isinstance(x, ast.BoolOp) and isinstance(x.op, ast.And) and "isinstance(exc, OSError)" in ast.unparse(x) and "errno" in ast.unparse(x))
+    b.values.reverse()
+
+
+def _cross_tls_timeouts(fn):
+    c = next(x for x in ast.walk(fn) if isinstance(x, ast.Call) and any(k.arg == "handshake_timeout" for k in x.keywords))
+    hk = next(k for k in c.keywords if k.arg == "handshake_timeout")
+    sk = next(k for k in c.keywords if k.arg == "shutdown_timeout")
+    hk.value, sk.value = sk.value, hk.value
+
+
+MUTANTS += [
+    Variant("accept-error-arm-reads-errno-before-the-isinstance-test", _CCT, _swap_and_operands, "C17.setup",
+            why="a non-OSError set-up failure makes the error handler raise AttributeError: the accept loop and every client are cancelled (seed C17-9)"),
+    Variant("udp-error-logger-destructures-the-peer-address", _UDPLOG,
+            lambda fn: fn.body.insert(next(i for i, s_ in enumerate(fn.body) if not (isinstance(s_, ast.Expr) and isinstance(s_.value, ast.Constant))), ast.parse("host, port = self.__lowlevel_client.address").body[0]),
+            "C17.hook", why="IPv6 address 4-tuple: ValueError raised by the catch-all itself stops the server (seed C17-8)"),
+    Variant("tls-listener-timeouts-crossed", _TLSL, _cross_tls_timeouts, "C17.setup",
+            why="the configured handshake timeout no longer bounds a stalled handshake (seed C17-7)"),
 ]
